@@ -2,9 +2,10 @@
 import ast
 
 from .. import bits as B_
-from ..astutil import dotted, handler_names, method_call
+from ..astutil import aug_form, dotted, handler_names, method_call, stores
 from ..cfg import cfg_of, fact_key, norm, walk_own
 from ..consteval import Scope, fold, fold_in
+from ..model import AnchorError
 from ..mutate import B, M
 
 PROP = 'C01'
@@ -22,10 +23,10 @@ EXPLANATION = (
     'enabled only inside the <= 10 attempt start-up loop on an exact echo of the request, both bits reset there, needs_resending = not '
     'safelink before the main loop, safe-send gated by the flag; R9 hand-off queues: out Queue(1), send_packet True only after put, False '
     'only on Full (with error callback), receive_packet returns only queue items or None, downlink packet = (byte 0, rest); R10 outgoing '
-    'frame = header byte then data bytes in order. The peer\'s half of the protocol and timing are not decided.')
+    'frame = header byte then data bytes in order; R11 several links on one dongle: every instance of the shared radio gets an id that no live instance holds (monotone counter bumped under the lock, or another fresh-id idiom), its own new reply queue registered under that id, the radio thread answers a transmission on the queue of the id that asked for it and the instance returns that answer. The peer\'s half of the protocol and timing are not decided.')
 ASSUMPTIONS = ['the peer implements the matching alternating-bit half (nRF firmware)',
                'the radio dongle reports ack=True only for frames acknowledged by the peer']
-FLOORS = {'R1': 3, 'R2': 2, 'R3': 3, 'R4': 2, 'R5': 3, 'R6': 3, 'R7': 5, 'R8': 6, 'R9': 7, 'R10': 2}
+FLOORS = {'R1': 3, 'R2': 2, 'R3': 3, 'R4': 2, 'R5': 3, 'R6': 3, 'R7': 5, 'R8': 6, 'R9': 7, 'R10': 2, 'R11': 6}
 
 
 def is_toggle(value, attr):
@@ -229,6 +230,91 @@ def check(ctx):
     ctx.inst('R10', run, 'frame=header+data', ok, 'frame = header byte, then each data byte in order (or the null packet 0xFF); appends %s' % app)
     lp = [n for n in g.nodes if n.kind == 'for' and n.id in body]
     ctx.inst('R10', run, 'data-in-order', len(lp) == 1 and norm(lp[0].ast.iter) == 'outPacket.data', 'data bytes are appended in iteration order')
+    shared_radio_rules(ctx)
+
+
+def shared_radio_rules(ctx):
+    """R11 - reply routing of the shared dongle: an ack (with the downlink payload) reaches exactly the link whose frame it answers."""
+    m = ctx.model
+    SR = m.cls(RD, '_SharedRadio')
+    SI = m.cls(RD, '_SharedRadioInstance')
+    oi = SR.method('open_instance')
+    reg = [(t, st) for t, st in stores(oi.node) if isinstance(t, ast.Subscript) and isinstance(st, ast.Assign)]
+    ctx.need(len(reg) == 1, '_SharedRadio.open_instance: expected one registration table[id] = queue, found %d' % len(reg))
+    table, key, qv = norm(reg[0][0].value), reg[0][0].slice, reg[0][1].value
+    ctx.need(isinstance(key, ast.Name) and isinstance(qv, ast.Name), 'open_instance: registration is not table[name] = name')
+    kb = [st for t, st in stores(oi.node) if norm(t) == key.id]
+    qb = [st for t, st in stores(oi.node) if norm(t) == qv.id]
+    ctx.need(len(kb) == 1 and isinstance(kb[0], ast.Assign), 'open_instance: the instance id is not bound exactly once')
+    idx = kb[0].value
+    src = norm(idx)
+    if any(norm(a) == table for a in ast.walk(idx)):
+        fresh, why = False, 'the id %s is computed from the table of live instances, which shrinks when a link closes: a later link can take over the id (and replies) of a live one' % src
+    elif isinstance(idx, ast.Attribute) and src.startswith('self.'):
+        bumps = [(st, aug_form(st)) for st in walk_own(oi.node) if isinstance(st, ast.stmt) and aug_form(st) and aug_form(st)[0] == src]
+        okb = len(bumps) == 1 and bumps[0][1][1] is ast.Add and isinstance(fold_in(oi, bumps[0][1][2]), int) and fold_in(oi, bumps[0][1][2]) >= 1
+        withs = [w for w in walk_own(oi.node) if isinstance(w, ast.With)]
+        same_lock = okb and any(kb[0] in w.body and bumps[0][0] in w.body and reg[0][1] in w.body for w in withs)
+        others = []
+        for mod_f in m.mod(RD).all_funcs():
+            for t, st in stores(mod_f.node):
+                if isinstance(t, ast.Attribute) and t.attr == idx.attr and not (mod_f is oi or mod_f.qualname == oi.qualname):
+                    if not (mod_f.qualname == '_SharedRadio.__init__' and isinstance(st, ast.Assign) and isinstance(fold_in(mod_f, st.value), int)):
+                        others.append('%s:%d' % (mod_f.qualname, st.lineno))
+        fresh = okb and same_lock and not others
+        why = 'id = %s, bumped by a positive constant in the same locked block (%s), no other writer (%s)' % (src, same_lock, others or 'none')
+    elif isinstance(idx, ast.Call) and norm(idx.func) == 'next' and len(idx.args) == 1:
+        fresh, why = True, 'id drawn from an iterator: %s' % src
+    elif isinstance(idx, ast.Call) and norm(idx.func) == 'id' and [norm(a) for a in idx.args] == [qv.id]:
+        fresh, why = True, 'id = id(queue) of the live queue object'
+    else:
+        raise AnchorError('open_instance: unrecognised instance-id expression %s' % src)
+    ctx.inst('R11', oi, 'fresh-instance-id', fresh, why)
+    ok = len(qb) == 1 and isinstance(qb[0], ast.Assign) and isinstance(qb[0].value, ast.Call) and norm(qb[0].value.func).split('.')[-1] == 'Queue' and not qb[0].value.args
+    ctx.inst('R11', oi, 'own-new-reply-queue', ok, 'each instance registers a reply queue created in this call (unbounded Queue())')
+    rets = [r.value for r in walk_own(oi.node) if isinstance(r, ast.Return)]
+    ok = len(rets) == 1 and isinstance(rets[0], ast.Call) and norm(rets[0].func) == '_SharedRadioInstance' and \
+        [norm(a) for a in rets[0].args[:3]] == [key.id, 'self._cmd_queue', qv.id]
+    ctx.inst('R11', oi, 'instance-gets-id-and-queue', ok, 'the instance is built from the registered id, the command queue and the registered reply queue')
+    ini = SI.method('__init__')
+    p = ini.params
+    binds = {norm(t): norm(st.value) for t, st in stores(ini.node) if isinstance(st, ast.Assign)}
+    wr = [f.qualname for f in m.mod(RD).all_funcs() if f.cls is SI and f is not ini and f.name != '__init__'
+          for t, _ in stores(f.node) if norm(t) in ('self._instance_id', 'self._rsp_queue', 'self._cmd_queue')]
+    ok = len(p) >= 4 and binds.get('self._instance_id') == p[1] and binds.get('self._cmd_queue') == p[2] and binds.get('self._rsp_queue') == p[3] and not wr
+    ctx.inst('R11', ini, 'instance-keeps-id-and-queue', ok, 'id / command queue / reply queue are the constructor arguments and never rewritten (writers: %s)' % (wr or 'none'))
+    sp = SI.method('send_packet')
+    puts = [c for c in walk_own(sp.node) if method_call(c, 'put')]
+    gets = [c for c in walk_own(sp.node) if method_call(c, 'get')]
+    rv = [r.value for r in walk_own(sp.node) if isinstance(r, ast.Return)]
+    ok = len(puts) == 1 and len(gets) == 1 and norm(puts[0].func.value) == 'self._cmd_queue' and norm(gets[0].func.value) == 'self._rsp_queue' and not gets[0].args \
+        and isinstance(puts[0].args[0], ast.Tuple) and [norm(e) for e in puts[0].args[0].elts[:2]] == ['self._instance_id', '_RadioCommands.SEND_PACKET'] \
+        and puts[0].lineno < gets[0].lineno and len(rv) == 1
+    if ok:
+        gb = [norm(t) for t, st in stores(sp.node) if isinstance(st, ast.Assign) and st.value is gets[0]]
+        ok = norm(rv[0]) in gb or rv[0] is gets[0]
+    ctx.inst('R11', sp, 'one-command-one-reply', ok, 'send_packet posts (own id, SEND_PACKET, ...) once and returns the single untimed get() from its own reply queue')
+    run = SR.method('run')
+    g = cfg_of(run)
+    cmd = [norm(t) for t, st in stores(run.node) if isinstance(st, ast.Assign) and method_call(st.value, 'get') and norm(st.value.func.value) == 'self._cmd_queue']
+    ctx.need(len(cmd) == 1, '_SharedRadio.run: command dequeue not found')
+    c = cmd[0]
+    rp = g.find(lambda q: method_call(q, 'put'))
+    tx = g.find(lambda q: method_call(q, 'send_packet') and norm(q.func.value) == 'self._radio')
+    want = fact_key('%s[1] == _RadioCommands.SEND_PACKET' % c)
+    ok = len(tx) == 1 and want in g.fact_keys_at(tx[0][0])
+    if ok:
+        txv = norm(tx[0][0].ast.targets[0]) if isinstance(tx[0][0].ast, ast.Assign) and len(tx[0][0].ast.targets) == 1 else None
+        mine = [(n, q) for n, q in rp if want in g.fact_keys_at(n)]
+        ok = txv is not None and len(mine) == 1 and norm(mine[0][1].func.value) == '%s[%s[0]]' % (table, c) and [norm(a) for a in mine[0][1].args] == [txv] \
+            and g.dominates(tx[0][0], mine[0][0])
+    ctx.inst('R11', run, 'ack-to-asking-instance', ok, 'in the SEND_PACKET branch the radio result is put once on %s[%s[0]], the queue of the instance that posted the command' % (table, c))
+    bad = ['line %d: %s' % (n.line, norm(q.func.value)) for n, q in rp if norm(q.func.value) != '%s[%s[0]]' % (table, c)]
+    ctx.inst('R11', run, 'replies-only-to-asker', not bad, 'every reply of the radio thread goes to the queue of the command\'s own id; others: %s' % (bad or 'none'))
+    dels = [(n, t) for n in g.nodes if isinstance(n.ast, ast.Delete) for t in n.ast.targets if isinstance(t, ast.Subscript) and norm(t.value) == table]
+    stop = fact_key('%s[1] == _RadioCommands.STOP' % c)
+    ok = all(norm(t.slice) == '%s[0]' % c and stop in g.fact_keys_at(n) for n, t in dels) and len(dels) == 1
+    ctx.inst('R11', run, 'unregister-only-own-id-on-stop', ok, 'a queue is unregistered only by the STOP command of its own id')
 
 
 VARIANTS = [
@@ -247,6 +333,10 @@ VARIANTS = [
     M('R9', RD, "        self.out_queue = queue.Queue(1)", "        self.out_queue = queue.Queue(2)", 'out queue 2'),
     M('R9', RD, "                inPacket = CRTPPacket(data[0], list(data[1:]))", "                inPacket = CRTPPacket(data[1], list(data[1:]))", 'downlink header byte'),
     M('R10', RD, "                dataOut.append(outPacket.header)\n                for X in outPacket.data:", "                for X in outPacket.data:", 'header byte missing'),
+    M('R11', RD, "            instance_id = self._next_instance_id\n", "            instance_id = len(self._rsp_queues)\n", 'id from table size'),
+    M('R11', RD, "            self._next_instance_id += 1\n", "", 'counter never bumped'),
+    M('R11', RD, "                ack = self._radio.send_packet(data)\n                self._rsp_queues[command[0]].put(ack)", "                ack = self._radio.send_packet(data)\n                for q in self._rsp_queues.values():\n                    q.put(ack)", 'ack broadcast'),
+    B(RD, "            self._next_instance_id += 1\n", "            self._next_instance_id = self._next_instance_id + 1\n", 'plain increment'),
     B(RD, "            self._curr_up = 1 - self._curr_up", "            self._curr_up = self._curr_up ^ 1", 'xor toggle'),
     B(RD, "            if ackStatus.ack is False:\n                self._retry_before_disconnect = \\\n                    self._retry_before_disconnect - 1", "            if ackStatus.ack is False:\n                self._retry_before_disconnect -= 1", 'augmented decrement'),
 ]
